@@ -159,15 +159,95 @@ def shortest_yields(prods):
     return best
 
 
+def table_diff_paths(cached, fresh, limit=8):
+    """Model-free search on a break: breadth-first walk over pairs of states of the two real
+    tables from (0, 0) along Shift and goto entries; yields (symbol path, next symbols to try,
+    reason) for the first pairs whose rows differ in any way `parse` can observe (missing
+    ACTION row, different action kind / target pairing / production / error code, different
+    default error, goto present on one side only)."""
+    lr1 = lr1dump.lr1mod()
+
+    def kind_of(a):
+        if isinstance(a, lr1.Shift):
+            return ("S",)
+        if isinstance(a, lr1.Reduce):
+            return ("R", a.rule)
+        if isinstance(a, lr1.Accept):
+            return ("A",)
+        return ("E", a.code)
+    out = []
+    pair = {0: 0}
+    queue = [(0, 0, ())]
+    qi = 0
+    while qi < len(queue) and len(out) < limit:
+        s, t, path = queue[qi]
+        qi += 1
+        ra, rb = cached.action.get(s), fresh.action.get(t)
+        if (ra is None) != (rb is None) and (ra or rb):
+            keys = sorted((ra or rb).keys(), key=str)
+            out.append((path, [None] + keys[:6], "state %d/%d: ACTION row present in one table only" % (s, t)))
+            continue
+        ra, rb = ra or {}, rb or {}
+        if cached.default_errors.get(s) != fresh.default_errors.get(t):
+            out.append((path, ["\0no-such-token"], "state %d/%d: default error codes differ" % (s, t)))
+            continue
+        bad = False
+        for a in sorted(set(ra) | set(rb), key=str):
+            x, y = ra.get(a), rb.get(a)
+            if x is None or y is None:
+                # absent entry = Error(default): observable unless the other side is that same error
+                e = x or y
+                d = (cached if x is None else fresh).default_errors.get(s if x is None else t)
+                if not (isinstance(e, lr1.Error) and e.code == d):
+                    out.append((path, [a], "state %d/%d: entry for %s in one table only" % (s, t, a)))
+                    bad = True
+                continue
+            if kind_of(x) != kind_of(y):
+                out.append((path, [a], "state %d/%d on %s: %s vs %s" % (s, t, a, kind_of(x)[0], kind_of(y)[0])))
+                bad = True
+            elif isinstance(x, lr1.Shift):
+                if x.state in pair:
+                    if pair[x.state] != y.state:
+                        out.append((path + (a,), [None], "state pairing is not a function at %d" % x.state))
+                        bad = True
+                else:
+                    pair[x.state] = y.state
+                    queue.append((x.state, y.state, path + (a,)))
+        ga, gb = cached.goto.get(s, {}), fresh.goto.get(t, {})
+        for x in sorted(set(ga) | set(gb), key=str):
+            if (x in ga) != (x in gb):
+                out.append((path, [x], "state %d/%d: goto on %s in one table only" % (s, t, x)))
+                bad = True
+            elif ga[x] in pair:
+                if pair[ga[x]] != gb[x]:
+                    out.append((path + (x,), [None], "state pairing is not a function at %d" % ga[x]))
+                    bad = True
+            else:
+                pair[ga[x]] = gb[x]
+                queue.append((ga[x], gb[x], path + (x,)))
+        if bad:
+            continue
+    return out
+
+
 def distinguish(chk, kind, cached, fresh, path_syms, user_prods, why, r):
     """Turn the symbol path to the first differing state pair into a token list and replay it
-    on both real parsers; fall back to a mutation search."""
+    on both real parsers; then the access paths found by a direct walk over the two real tables;
+    fall back to a mutation search."""
     pt = lr1dump.ptypes()
     best = shortest_yields(user_prods)
-    toks = []
-    for x in path_syms:
-        toks += best.get(x, [x])
-    cands = [toks, toks[:-1]]
+
+    def expand(syms):
+        toks = []
+        for x in syms:
+            if x is not None:
+                toks += best.get(x, [x])
+        return toks
+    toks = expand(path_syms or [])
+    cands = [toks, toks[:-1]] if path_syms is not None else []
+    for path, nexts, reason in table_diff_paths(cached, fresh):
+        for nx in nexts:
+            cands.append(expand(list(path) + [nx]))
     streams, muts = token_streams("thorough", kind, r)
     cands += [[t.symbol for t in s] for s in streams + muts]
     for c in cands:
@@ -292,6 +372,11 @@ def search(chk):
                                     "expected": "a parser"}, key="build:" + kind)
             continue
         cached = load()
+        # first: a walk over the two tables for the shortest access path to a differing state
+        from compiler.front_end import module_ir
+        if distinguish(chk, kind, cached, fresh, None, sorted(module_ir.PRODUCTIONS),
+                       "direct comparison of the cached and the fresh tables", r):
+            continue
         streams, muts = token_streams("thorough", kind, r)
         for k, toks in enumerate(streams + muts):
             keep = k < len(streams)
